@@ -146,6 +146,7 @@ func (s *stubWitness) Update(ctx context.Context, logID string, oldSize uint64, 
 }
 
 type c13Result struct {
+	txLeft         bool // a storage transaction was still open when the run ended
 	neverReturned  bool // FeedOnce had not returned 10 simulated minutes after its context ended
 	runReturnDelay time.Duration
 	calls          []*feedCall
@@ -167,7 +168,12 @@ func c13Exec(t *testing.T, p *Plan) (r *c13Result) {
 	r = &c13Result{}
 	defer func() {
 		if x := recover(); x != nil {
-			r.infra = fmt.Sprintf("bubble ended abnormally: %v", x)
+			if strings.Contains(fmt.Sprint(x), "blocked goroutines remain") && p.Cfg.Extra["sqlite"] == 1 {
+				// database/sql's watcher of a transaction that was neither committed nor rolled back is still there at the end
+				r.txLeft = true
+			} else {
+				r.infra = fmt.Sprintf("bubble ended abnormally: %v", x)
+			}
 			dumpGoroutines()
 		}
 	}()
@@ -602,6 +608,10 @@ func oracleC13(p *Plan, r *c13Result) []Violation {
 		if strings.HasPrefix(p.Cfg.Notes["cancel"], "sleep:") && len(r.calls) > r.callsAtCancel {
 			add("ran_after_cancel", "call_after_cancel_in_backoff", "the context ended while the feeder was backing off, yet it made further calls")
 		}
+	}
+	if r.txLeft {
+		add("no_retry_success", "transaction_left_open", fmt.Sprintf("when the run ended a storage transaction opened for the feeder's update was still open (%d transient failures injected; calls: %s): on the one-connection store nothing can be read or written any more", r.fired, callString(r.calls)))
+		return out
 	}
 	if r.neverReturned {
 		add("no_retry_success", "never_returns", fmt.Sprintf("FeedOnce neither finished nor stopped when its context ended (%d transient failures injected; calls: %s): it waits for something that never comes", r.fired, callString(r.calls)))
